@@ -44,6 +44,9 @@ def scenarios():
     add("queue", "C C C B.2.2.- R.0.2.0.0 R.1.2.0.0 R.1.3.0.1 R.1.4.0.0 R.1.5.0.0 L.0.3.0 L.0.4.0 L.1.6.0 L.1.7.0 L.1.8.3")
     add("duplicate-serial", "C C C B.2.2.- S.0.c.u1.6.20.2.0.0.0.0 S.0.c.u1.6.20.2.0.0.0.0 S.0.c.u1.6.20.3.0.0.1.0 S.0.c.u1.6.20.3.0.0.1.0 D.1")
     add("self-call", "C C B.1.2.- S.0.c.u0.6.20.2.0.0.0.0 S.0.r.u0.0.0.3.2.0.0.0 S.0.c.u0.6.20.4.0.0.0.0 D.0")
+    # an unanswered call to itself (by unique name / by a name it owns) at the switch: the record is forgotten, no NoReply to the monitor
+    add("switch-self-call", "C C C B.2.2.- S.0.c.u0.6.20.2.0.0.0.0 B.0.3.- G.1.2")
+    add("switch-self-call-by-name", "C C R.0.2.1.0 S.0.c.n1.6.20.3.0.0.0.0 S.1.c.n1.6.21.2.0.0.0.0 B.0.4.- G.1.3")
     add("no-monitor", "C C A.1.2.s/-/-/-/- S.0.s.-.6.20.2.0.0.0.0 R.0.3.0.0 D.0")
     add("monitor-disconnects", "C C C B.1.2.- B.2.2.- D.1 S.0.s.-.6.20.2.0.0.0.0 D.2 S.0.s.-.6.20.3.0.0.0.0")
     return S
@@ -175,7 +178,11 @@ def gen_history(rnd, n_events):
                 sv = ser(c)
                 ev.append("S.%d.c.u%d.6.21.%d.0.0.0.0" % (c, o, sv))
                 st["pending"].append((c, o, sv))
-            elif k < 0.5 and others:
+            elif k < 0.43:
+                sv = ser(c)
+                ev.append("S.%d.c.u%d.6.20.%d.0.0.0.0" % (c, c, sv))          # an unanswered call to itself
+                st["pending"].append((c, c, sv))
+            elif k < 0.55 and others:
                 n = rnd.randrange(N_NAMES)
                 ev.append("R.%d.%d.%d.0" % (c, ser(c), n))
                 ev.append("R.%d.%d.%d.0" % (rnd.choice(others), ser(rnd.choice(others)), n))
